@@ -141,7 +141,7 @@ def history_case(mon, rng):
     from vopy.confidence_region import RectangularConfidenceRegion
 
     m = int(rng.choice([2, 3]))
-    label, order = gen.random_order(rng, m)
+    label, order = gen.random_order(rng, m, rowscale_p=0.15)
     W = order.ordering_cone.W
     it = bool(rng.random() < 0.6)
     r1 = RectangularConfidenceRegion(m, intersect_iteratively=it)
@@ -190,7 +190,7 @@ def forced_fallback_channel(mon, rng, n):
     try:
         for _ in range(n):
             m = 2
-            label, order = gen.random_order(rng, m, families=["theta", "orthant", "random"])
+            label, order = gen.random_order(rng, m, families=["theta", "orthant", "random"], rowscale_p=0.15)
             W = order.ordering_cone.W
             ell = rng.random() < 0.5
             if ell:
@@ -223,11 +223,11 @@ def shard(mon, tier, rng, shard_no, nshards):
     for i in range(n):
         if rng.random() < 0.55:
             m = int(rng.choice([2, 2, 3, 4]))
-            label, order = gen.random_order(rng, m)
+            label, order = gen.random_order(rng, m, rowscale_p=0.15)
             rect_case(mon, rng, label, order, m)
         else:
             m = int(rng.choice([2, 2, 3, 4]))
-            label, order = gen.random_order(rng, m)
+            label, order = gen.random_order(rng, m, rowscale_p=0.15)
             ell_case(mon, rng, label, order, m)
         if i % 4 == 0:
             history_case(mon, rng)
